@@ -7,8 +7,10 @@
  *                                  with an explicit root-word list; mark bits and the freed set must equal the model's.
  *                                  full: the real GC_Mark/GC_Sweep (threshold-triggered by `new`, forced by `collect`);
  *                                  reachable (shadow graph) ⊆ survivors.
- *   new <id> <kind>[!] <arg> <where>   kind P(arg=1|2|4|8 slots) M(probe with its own Mark instance, 4 slots) R B(arg=target id)
- *                                  A L (Array/List of Ref) T U (Table Int->Ref / Ref->Ref) E F (Tree Int->Ref / Ref->Ref) H (heap Tuple);
+ *   new <id> <kind>[!] <arg> <where>   kind P(arg=1|2|4|8 slots; the destructor of the 8-slot probe also calls del(NULL)) M(probe with its own
+ *                                  Mark instance, 4 slots) R B(arg=target id)
+ *                                  A L (Array/List of Ref) T U (Table Int->Ref / Ref->Ref) E F (Tree Int->Ref / Ref->Ref) H (heap Tuple)
+ *                                  W (a Thread object that is NOT current(Thread): new(Thread), never started; registered with this collector);
  *                                  for A L arg may be an element type R|I|S|F (Ref, Int, String, Float), for T U E F a key type R|I|S
  *                                  followed by a value type R|I|S|F (`new 3 T SI -` = Table(String, Int)): containers of leaf types;
  *                                  `!` = root-registered (new_root/alloc_root); where = `-` or `s<j>` (stack root slot j)
@@ -21,6 +23,9 @@
  *   push <id> <tok> | pop <id> <idx> | aset <id> <idx> <tok>      A L H   (tok: o<id>, for A/L also n)
  *   tset <id> <key> <tok> | trem <id> <key>                       T E (integer key)  U F (key = object id)
  *   tls <k> <tok> | tlsrem <k>     set/rem(current(Thread), "k<k>")
+ *   wset <id> <k> <tok> | wrem <id> <k>   set/rem(W object, "k<k>"): objects stored in the table of a Thread object other than current(Thread)
+ *                                  (data handed to a thread before it is called).  Thread_Mark presents the table of every Thread object
+ *                                  (the guard of 80c795e was withdrawn by 0a0ad73): the W object is a path like any container
  *   root <j> <tok>                 stack root slot j of a frame that stays live
  *   del <id>                       explicit del of an object nothing usable points to
  *   chain <id> <n> <kind> <where>  n objects id..id+n-1 of kind R|P|A|H|U, each pointing to the next
@@ -28,7 +33,10 @@
  *   xraise <id> <tok>*             exact: the same collection, but the Mark instance of ProbeM <id> throws when the marker reaches it: the
  *                                  exception leaves the mark phase, GC_Sweep does not run, the mark bits set so far stay (dumped).  While
  *                                  bits are set, new / pair / copy / chain / del are refused (a registry rehash would clear them).  The next
- *                                  xcollect starts from those bits (known finding KF-C01-stale-marks).  <id> not reached: as xcollect.
+ *                                  mark phase clears those bits first (GC_Unmark, fix d8f0c4f; a tree without it starts from them and
+ *                                  loses reachable objects: an ordinary oracle failure).  <id> not reached: as xcollect.
+ *   craise <id>                    full: the REAL GC_Mark with the Mark instance of the (reachable) ProbeM <id> throwing: the exception
+ *                                  leaves GC_Mark, no sweep, whatever bits it had set stay; later collections must not lose anything
  *   xbox <id> <target>             exact: a Box on an object that other objects / roots may refer to (outside Box's ownership contract:
  *                                  when the Box is swept, Box_Del deletes the target although it is reachable — reported as `I excluded`)
  *   newraw <id> <kind> <arg> <where>   exact: a container (A L T U E F) allocated with new_raw: not registered; the collector does not follow a
@@ -54,7 +62,7 @@
 #define NTLS 64
 #define MASK 0x5a5a5a5a5a5a5a5aULL
 
-enum { K_NONE = 0, K_P, K_M, K_R, K_B, K_A, K_L, K_T, K_E, K_H };   /* letters U / F: T / E with Ref keys */
+enum { K_NONE = 0, K_P, K_M, K_R, K_B, K_A, K_L, K_T, K_E, K_H, K_W };   /* letters U / F: T / E with Ref keys; W: a Thread object */
 enum { E_R = 0, E_I, E_S, E_F };                                       /* element / key / value types: Ref, Int, String, Float */
 enum { T_NIL = 0, T_OBJ, T_MIS, T_INT, T_LO, T_HI, T_SMALL };
 typedef struct { int t; long v; } Tok;
@@ -114,7 +122,10 @@ static void ProbeM_Mark(var self, var gc, void(*f)(var,void*)) {
 var Probe1 = Cello(Probe1, Instance(New, NULL, Probe_Del));
 var Probe2 = Cello(Probe2, Instance(New, NULL, Probe_Del));
 var Probe4 = Cello(Probe4, Instance(New, NULL, Probe_Del));
-var Probe8 = Cello(Probe8, Instance(New, NULL, Probe_Del));
+/* a destructor that deletes an optional member which is NULL: del(NULL) is a no-op everywhere, also during a sweep (fix d3e4e44;
+   before it GC_Rem_Ptr(NULL) matched the NULL slot of the item being released and ran dealloc(destruct(NULL))) */
+static void Probe8_Del(var self) { Probe_Del(self); if (!exiting) del(NULL); }
+var Probe8 = Cello(Probe8, Instance(New, NULL, Probe8_Del));
 var ProbeM = Cello(ProbeM, Instance(New, NULL, Probe_Del), Instance(Mark, ProbeM_Mark));
 
 static var probe_type(int k) { return k == 1 ? Probe1 : k == 2 ? Probe2 : k == 4 ? Probe4 : Probe8; }
@@ -258,6 +269,7 @@ static var make_real(int kind, int k, int rootflag, long id, int kt, int vt) {
     case K_T: p = rootflag ? new_root(Table, ety_type(kt), ety_type(vt)) : new(Table, ety_type(kt), ety_type(vt)); break;
     case K_E: p = rootflag ? new_root(Tree, ety_type(kt), ety_type(vt)) : new(Tree, ety_type(kt), ety_type(vt)); break;
     case K_H: p = rootflag ? new_root(Tuple) : new(Tuple); break;
+    case K_W: p = rootflag ? new_root(Thread) : new(Thread); break;
   }
   if (kind == K_P || kind == K_M) { struct ProbeHead* h = p; h->id = id; h->canary = canary_of(id); }
   return p;
@@ -281,6 +293,14 @@ static int content_ok(int id) {
     if (h->id != id || h->canary != canary_of(id)) return 0;
   }
   if (is_words(o->kind)) { for (int i = 0; i < o->n; i++) if (word_load(id, i) != tok_word(o->el[i])) return 0; return 1; }
+  if (o->kind == K_W) {
+    if (type_of(p) != Thread) return 0;
+    for (int i = 0; i < o->n; i++) {
+      var key = $S((char*)key_text(o->key[i]));
+      if (!mem(p, key) || get(p, key) != tok_word(o->el[i])) return 0;
+    }
+    return 1;
+  }
   if (o->kind == K_H) {
     if ((int)len(p) != o->n) return 0;
     for (int i = 0; i < o->n; i++) if (get(p, $I(i)) != tok_word(o->el[i])) return 0;
@@ -318,7 +338,7 @@ static void oracle_survivors(const char* when) {
 static int kind_letter(char c, int* kt, int* vt) {
   *kt = E_R; *vt = E_R;
   switch (c) { case 'P': return K_P; case 'M': return K_M; case 'R': return K_R; case 'B': return K_B; case 'A': return K_A; case 'L': return K_L;
-    case 'T': *kt = E_I; return K_T; case 'U': return K_T; case 'E': *kt = E_I; return K_E; case 'F': return K_E; case 'H': return K_H; }
+    case 'T': *kt = E_I; return K_T; case 'U': return K_T; case 'E': *kt = E_I; return K_E; case 'F': return K_E; case 'H': return K_H; case 'W': return K_W; }
   return K_NONE;
 }
 static int kind_of(const char* s, int* rootflag, int* kt, int* vt) {
@@ -523,18 +543,18 @@ static __attribute__((noinline)) void finish_collect(const char* tag) {
     if (gone) { fr[i] = 1; nfreed++; }
   }
   O("%s marked=%s freed=%s", tag, mtxt, set_text(fr, 1));
-  /* oracle.  When mark bits were set before the mark phase began, a lost reachable object is the known finding KF-C01-stale-marks;
-     an object freed by the destructor of an unreachable Box that owned it is Box's ownership contract (an exclusion, reported as I). */
-  const char* lost = stale_before ? "gc-stale-marks" : "gc-reclaimed-reachable";
+  /* oracle.  An object freed by the destructor of an unreachable Box that owned it is Box's ownership contract (an exclusion, reported as I).
+     Mark bits that were still set when the three phases began (a tree whose GC_Mark does not clear them first) are named in the text. */
+  const char* lost = "gc-reclaimed-reachable";
   for (int i = 0; i <= maxid; i++) {
     if (!sh[i].used || !sh[i].alive || sh[i].raw) continue;
     int ow = sh[i].owner - 1;
     int by_box = sh[i].owner && usable(ow) && !reach[ow] && fr[ow];
-    if (reach[i] && !mk[i]) X("sig=%s line=%zu what=object %d reachable from the roots was not marked%s", stale_before ? "gc-stale-marks" : "gc-unmarked-reachable", curline, i,
+    if (reach[i] && !mk[i]) X("sig=gc-unmarked-reachable line=%zu what=object %d reachable from the roots was not marked%s", curline, i,
                               stale_before ? " (mark bits left by a mark phase that an exception left were still set)" : "");
     if ((reach[i] || sh[i].rootflag) && fr[i]) {
       if (by_box) I("excluded line=%zu what=object %d (reachable) was deleted by the destructor of the unreachable Box %d that owned it", curline, i, ow);
-      else if (reach[i]) X("sig=%s line=%zu what=object %d reachable from the roots was swept", lost, curline, i);
+      else if (reach[i]) X("sig=%s line=%zu what=object %d reachable from the roots was swept%s", lost, curline, i, stale_before ? " (stale mark bits)" : "");
       else X("sig=%s line=%zu what=root-registered object %d was swept", lost, curline, i);
     }
   }
@@ -583,6 +603,33 @@ static __attribute__((noinline)) void do_collect(void) {
   n_freed_total += freed;
   O("c live=%s", set_text(reach, 1));
   I("collect line=%zu unreachable-freed=%zu registered=%zu", curline, freed, G()->nitems);
+}
+
+/* full mode: the real GC_Mark, left by an exception thrown by the Mark instance of the (shadow-reachable) probe `id`.  No sweep: the bits
+   GC_Mark had set stay in the registry.  Every later collection (threshold-triggered or forced) must still keep everything reachable. */
+static __attribute__((noinline)) void real_mark(void) { GC_Mark(G()); }
+static __attribute__((noinline)) void do_craise(long id) {
+  struct GC* gc = G();
+  size_t mit0 = gc->mitems;
+  var exc;
+  scrub_stack();
+  gc->mitems = ((size_t)1) << 60;      /* no collection nested in this mark phase */
+  armed_id = id;
+  V_TRY(exc, real_mark());
+  armed_id = -1;
+  G()->mitems = mit0;
+  if (!exc) {
+    X("sig=gc-unmarked-reachable line=%zu what=GC_Mark completed although the Mark instance of the reachable probe %ld throws: the probe was not traced", curline, id);
+    GC_Sweep(G());
+    oracle_survivors("collection completed by craise");
+    for (int i = 0; i <= maxid; i++) if (sh[i].used && sh[i].alive && !reach[i]) { sh[i].alive = 0; note_garbage(i); }
+    O("craise completed");
+    return;
+  }
+  size_t left = 0;
+  for (size_t i = 0; i < gc->nslots; i++) if (gc->entries[i].hash && gc->entries[i].marked) left++;
+  I("craise line=%zu exc=%s bits-left=%zu", curline, v_exc_name(exc), left);
+  O("craise raised");
 }
 
 /* chain of n objects id..id+n-1 (all of one kind), each pointing to the next */
@@ -789,6 +836,22 @@ int main(int argc, char** argv) {
       if (nw != 2 || !parse_long(w[1], &k) || k < 0 || k >= NTLS || !tls_used[k]) BAD;
       snprintf(name, sizeof name, "k%ld", k);
       rem(current(Thread), $S(name)); tls_used[k] = 0; O("ok");
+    } else if (!strcmp(w[0], "wset")) {
+      long id, k; Tok t; char name[32];
+      if (nw != 4 || !parse_long(w[1], &id) || !usable(id) || sh[id].kind != K_W || !parse_long(w[2], &k) || k < 0 || k >= NTLS
+          || !parse_tok(w[3], &t) || !tok_ok(t) || !(t.t == T_OBJ || t.t == T_NIL)) BAD;
+      snprintf(name, sizeof name, "k%ld", k);
+      set(P((int)id), $S(name), tok_word(t));
+      Sh* o = &sh[id]; int i = map_find(o, k);
+      if (i < 0) { sh_grow(o); i = o->n++; o->key[i] = k; }
+      o->el[i] = t; O("ok");
+    } else if (!strcmp(w[0], "wrem")) {
+      long id, k; char name[32];
+      if (nw != 3 || !parse_long(w[1], &id) || !usable(id) || sh[id].kind != K_W || !parse_long(w[2], &k) || map_find(&sh[id], k) < 0) BAD;
+      snprintf(name, sizeof name, "k%ld", k);
+      rem(P((int)id), $S(name));
+      Sh* o = &sh[id]; int i = map_find(o, k);
+      o->el[i] = o->el[o->n - 1]; o->key[i] = o->key[o->n - 1]; o->n--; O("ok");
     } else if (!strcmp(w[0], "root")) {
       long j; Tok t;
       if (nw != 3 || !parse_long(w[1], &j) || j < 0 || j >= NROOTS || !parse_tok(w[2], &t) || !tok_ok(t) || !(t.t == T_OBJ || t.t == T_NIL)) BAD;
@@ -891,6 +954,12 @@ int main(int argc, char** argv) {
     } else if (!strcmp(w[0], "collect")) {
       if (!mode_full || nw != 1) BAD;
       do_collect();
+    } else if (!strcmp(w[0], "craise")) {
+      long id;
+      if (!mode_full || nw != 2 || !parse_long(w[1], &id) || !usable(id) || sh[id].kind != K_M) BAD;
+      shadow_reach(NULL, 0, 1);
+      if (!reach[id]) BAD;
+      do_craise(id);
     } else if (!strcmp(w[0], "churn")) {
       long cn;
       if (!mode_full || nw != 2 || !parse_long(w[1], &cn) || cn < 0 || cn > 100000) BAD;
